@@ -23,6 +23,16 @@ on the real `Accept` and through the real msg server: known_findings.json),
 `recipients_on_allow_list_when_kept` / `transfers_recipients_on_allow_list_when_kept` prove the
 full clause for the one-field repair. `allow_list_clause_current_code` states whichever of the
 two applies to `PvModel.Mkracc.keepAllowListOnUpdate`.
+
+A second clause is FALSE of the code as found: `AddAccess` / `DeleteAccess` accept a caller for
+whom `accountControlsAllSupply` answers yes, and that function compares the caller's balance
+with the RECORDED supply (marker.go:868) — 0 for every marker created with amount 0, for ever
+when the supply floats — so any account with a zero balance may rewrite the access list of such
+a finalized/active marker. `anyone_takes_over_zero_supply_marker` is the 4-message witness
+(replayed through the real msg server), `supply_control_is_documented_partial` /
+`access_change_needs_real_credential_partial` what holds, `…_when_repaired` the full clause for
+the repair, `supply_control_clause_current_code` whichever applies to
+`PvModel.Mkracc.supplyControlViaBank`.
 -/
 import PvModel.MkraccSpec
 import PvProofs.Lemmas.MkraccCoins
